@@ -14,11 +14,11 @@ def main():
     opt = lambda n, d=None: sys.argv[sys.argv.index(n) + 1] if n in sys.argv else d   # noqa: E731
     wt = f"/tmp/wn/{pid}"
     src = opt('--from', wt)                      # where the (possibly rebased) diff and the exercise are
-    base = opt('--base', 'HEAD')                 # commit of /repo the diff applies to (pinned when not HEAD)
+    base_rev = opt('--base', 'HEAD')                 # commit of /repo the diff applies to (pinned when not HEAD)
     diff = opt('--diff', f"{wt}/neutral{pid}_{k}.diff"); ex = f"{src}/exercise{pid}_{k}.py"; notes = f"{wt}/NEUTRAL_NOTES{pid}_.md"
     d = tempfile.mkdtemp(prefix='pane-neu-', dir='/tmp')
     try:
-        sh(f"git -C /repo archive {base} | tar -x -C {d}")
+        sh(f"git -C /repo archive {base_rev} | tar -x -C {d}")
         open(f"{d}/exercise.py", 'w').write(open(ex).read().replace(src, d).replace(wt, d))
         rc0, out0 = sh("/venv/bin/python exercise.py", d)
         rc, out = sh(f"patch -p1 -s < {diff}", d)
@@ -38,8 +38,8 @@ def main():
         open(f"{dst}/NOTES.md", 'w').write((open(notes).read() if os.path.exists(notes) else '') + f"\n\n(this directory holds change {k} of these notes)\n")
         meta = {'id': f"{pid}_{k}", 'property': pid,
                 'origin': 'fresh sub-agent given only the property text and its own scratch worktree, asked for a change that PRESERVES the property',
-                'base_commit': subprocess.run(f"git -C /repo rev-parse {base}", shell=True, capture_output=True, text=True).stdout.strip(),
-                'pinned_base': base != 'HEAD',
+                'base_commit': subprocess.run(f"git -C /repo rev-parse {base_rev}", shell=True, capture_output=True, text=True).stdout.strip(),
+                'pinned_base': base_rev != 'HEAD',
                 'confirmed': {'exercise_clean': rc0, 'exercise_changed': rc1, 'suite_with_change': base.strip()}, 'checks': {}}
         json.dump(meta, open(f"{dst}/meta.json", 'w'), indent=1)
         return 0
